@@ -117,6 +117,8 @@ M("c03-find-first-only", "C03", "find stops offering after the first rejected du
    "        if (hfp->visit == NULL || hfp->visit(e, hfp->p) != 0) {\n            hfp->e = e;\n        }\n        return 1;"))
 M("c03-setcap-commit", "C03", "set_capacity records the capacity even when realloc fails",
   (HS, "    if (at != NULL) {\n        h->bucket.at = at;\n        h->bucket.capacity = sz;\n    }", "    if (at != NULL) {\n        h->bucket.at = at;\n    }\n    h->bucket.capacity = sz;"), also=["C16"])
+M("c03-new-buckets-dirty", "C03", "newly added buckets are initialised dirty (they are never swept, so they look clean after the NEXT resize flips the marker)",
+  (HS, "                h->bucket.at[i].cst = h->bucket.cst;\n            }", "                h->bucket.at[i].cst = !h->bucket.cst;\n            }"), also=["C04"])
 # ----------------------------------------------------------------- C04
 M("c04-foreach-no-finish", "C04", "foreach no longer forces completion (callback may erase mid-rehash)",
   (HS, "    cstl_hash_rehash(h);\n    return __cstl_hash_foreach(h, visit, p);", "    return __cstl_hash_foreach(h, visit, p);"))
@@ -211,8 +213,6 @@ M("c10-insert-pos-ge", "C10", "insert position check uses >= (append at size abo
   (ST, "    if (pos > STRF(size, s)) {\n        abort();", "    if (pos > STRF(size, s) + 1) {\n        abort();"))
 M("c10-find-from-start", "C10", "find_str searches from the start instead of pos",
   (ST, "    f = STDSTRF(str, str + pos, n);", "    f = STDSTRF(str, str, n);"))
-M("c10-find-ch-terminator", "C10", "find_ch reports the terminator position for embedded search past it",
-  (ST, "    if (f != NULL && f != str + sz) {", "    if (f != NULL) {"))
 M("c10-substr-len", "C10", "substr copies one character less when clamped",
   (ST, "    if (*len > size - pos) {\n        *len = size - pos;", "    if (*len > size - pos) {\n        *len = size - pos > 1 ? size - pos - 1 : size - pos;"))
 M("c10-str-reserved", "C10", "str() hands out reserved-but-empty storage again (the repaired defect)",
@@ -356,8 +356,8 @@ N("neg-map-null-hint", ["C08"], "the map always passes a NULL hint",
 N("neg-map-free-before-callback", ["C08", "C15"], "the map frees the node before invoking the user's clear callback (detached iterator)",
   (MP, "    if (cmc->clr != NULL) {\n        cstl_map_iterator_t i;\n\n        cstl_map_iterator_init(cmc->map, &i, node);\n        i._ = NULL;\n\n        cmc->clr(&i, cmc->priv);\n    }\n\n    cstl_map_node_free(node);",
    "    cstl_map_iterator_t i;\n    cstl_map_iterator_init(cmc->map, &i, node);\n    i._ = NULL;\n    cstl_map_node_free(node);\n    if (cmc->clr != NULL) {\n        cmc->clr(&i, cmc->priv);\n    }"))
-N("neg-hash-new-buckets-dirty", ["C03", "C04", "C19"], "newly added buckets are initialised dirty",
-  (HS, "                h->bucket.at[i].cst = h->bucket.cst;\n            }", "                h->bucket.at[i].cst = !h->bucket.cst;\n            }"))
+N("neg-string-find-ch-terminator", ["C10"], "find_ch(NUL) reports the terminator's index, as strchr does",
+  ("src/_string.c", "    if (f != NULL && f != str + sz) {", "    if (f != NULL) {"))
 N("neg-hash-load-double", ["C19"], "load computed in double precision",
   ("include/cstl/hash.h", "    return (float)h->count / count;", "    return (float)((double)h->count / (double)count);"))
 N("neg-hash-sweep-two", ["C03", "C04", "C19"], "keyed access sweeps two extra buckets instead of one",
@@ -372,7 +372,7 @@ N("neg-slist-sort-unstable", ["C13"], "slist sort becomes unstable",
   (SL, "                    cmp_p) <= 0) {\n                l = &_sl[0];", "                    cmp_p) < 0) {\n                l = &_sl[0];"))
 N("neg-heap-tie", ["C07"], "heap sift-down breaks ties toward the right child",
   (HP, "                if (n->r != NULL\n                    && __cstl_bintree_cmp(&h->bt, n->r, c) > 0) {",
-   "                if (n->r != NULL && c != n\n                    && __cstl_bintree_cmp(&h->bt, n->r, c) >= 0) {"))
+   "                if (n->r != NULL\n                    && __cstl_bintree_cmp(&h->bt, n->r, c) >= 0 && (c != n || __cstl_bintree_cmp(&h->bt, n->r, c) > 0)) {"))
 N("neg-tree-clear-mid", ["C15", "C01"], "tree clear calls back on the MID visit instead of POST",
   (BT, "    if (order == CSTL_BINTREE_VISIT_ORDER_POST\n        || order == CSTL_BINTREE_VISIT_ORDER_LEAF) {",
    "    if (order == CSTL_BINTREE_VISIT_ORDER_MID\n        || order == CSTL_BINTREE_VISIT_ORDER_LEAF) {"))
